@@ -485,6 +485,9 @@ func (g *mgGen) genOf(t string, d int) *mgExpr {
 
 // calls go to later functions only (no cycles), except the self call of the recursive template
 func (g *mgGen) genCall(ret string, d int) *mgExpr {
+	if g.inLoop >= 2 { // keeps the cost of a run bounded (calls multiply through nested loops)
+		return nil
+	}
 	var cands []int
 	for j := g.fidx + 1; j < len(g.sigs); j++ {
 		if g.sigs[j].ret == ret {
